@@ -218,7 +218,7 @@ structure Scene where
 deriving Repr, Inhabited
 
 inductive Err where
-  | nilMesh | badId | alphaCutoff | marshal | dupAttr
+  | nilMesh | badId | alphaCutoff | marshal | dupAttr | quad
 deriving DecidableEq, Repr
 
 /-! ### writer state -/
@@ -355,10 +355,16 @@ def writeMeshData (w : W) (id : Nat) (m : PMesh) : W × List (String × Nat) × 
   let w2 := writeIndices r.1 m.indices m.attrLen
   ({ w2 with written := mapInsert w2.written id (r.2, r.1.accessors.length) }, r.2, r.1.accessors.length)
 
-/-- the glTF mesh of a model: one primitive; `mode` is only written for point clouds -/
+/-- the primitive mode AddMesh writes for a `modeling.Topology` (since the fix "gltf writer sets the primitive mode of line
+    meshes and rejects quad meshes"): point ↦ 0 POINTS, line ↦ 1 LINES, line-loop ↦ 2 LINE_LOOP, line-strip ↦ 3 LINE_STRIP,
+    triangle ↦ omitted (default TRIANGLES).  (Quad meshes are rejected before this point, see `Model/GltfTopo.lean`.) -/
+def modeOfTopo (t : Nat) : Option Nat :=
+  if t = 1 then some 0 else if t = 3 then some 1 else if t = 5 then some 2 else if t = 4 then some 3 else none
+
+/-- the glTF mesh of a model: one primitive; `mode` from the topology -/
 def mkMesh (name : String) (attrs : List (String × Nat)) (idx : Nat) (mat : Option Nat) (m : PMesh) : GMesh :=
   { name := name, prims := [{ attrs := attrs, indices := some idx, material := mat,
-                              mode := if m.topo = 1 then some 0 else none }] }
+                              mode := modeOfTopo m.topo }] }
 
 /-- accessor reuse by mesh pointer (`writtenMeshData`), else write the mesh data -/
 def meshDataFor (w : W) (id : Nat) (m : PMesh) : W × List (String × Nat) × Nat :=
